@@ -37,7 +37,9 @@ def run_property(prop: str, tier: str, only_rule=None, repo=REPO,
         mod.run(ctx)
         if tier == "thorough" and hasattr(mod, "run_thorough"):
             mod.run_thorough(ctx)
-        if tier == "thorough" and write and not os.environ.get("VERIF_NO_WITNESS"):
+        unknown = [v for v in ctx.violations if match_known(v, load_known()) is None]
+        if tier == "thorough" and write and not os.environ.get("VERIF_NO_WITNESS") and not unknown:
+            # (the harness is only meaningful on a tree that holds: on a violating tree every preserving edit "alarms")
             # A12: the checker is tested both ways on scratch copies of the current tree
             from .witness import run_witnesses
             w = run_witnesses(prop, repo)
